@@ -199,6 +199,7 @@ class PWLCalibration(keras.layers.Layer):
     super(PWLCalibration, self).__init__(**kwargs)
 
     utils.verify_units(units)
+    utils.verify_num_projection_iterations(num_projection_iterations)
     pwl_calibration_lib.verify_hyperparameters(
         input_keypoints=input_keypoints,
         output_min=output_min,
@@ -725,6 +726,7 @@ class PWLCalibrationConstraints(keras.constraints.Constraint):
       num_projection_iterations: Same meaning as corresponding parameter of
         `PWLCalibration`.
     """
+    utils.verify_num_projection_iterations(num_projection_iterations)
     pwl_calibration_lib.verify_hyperparameters(
         output_min=output_min,
         output_max=output_max,
